@@ -41,8 +41,10 @@ def base_data(ent, base):
     keys = class_keys(ent)
     amp = {'T': 0.0, 'G1': 1.0, 'G2': 6.0, 'X': 36.0}[base]
     off = {'T': 1.0, 'G1': 1.0, 'G2': 3.0, 'X': 18.0}[base]
-    return {'pre': np.ones(len(keys['site'])), 'betaene': np.array([amp * hval(k, base) for k in keys['site']]),
-            'preT': np.ones(len(keys['jump'])), 'betaeneT': np.array([amp * hval(k, base) + off for k in keys['jump']])}
+    # G2 carries generic prefactors exp(+-0.5) as well (the other bases have unit prefactors)
+    gp = (lambda ks: np.exp(np.array([hval(k, 'G2:pre') for k in ks]))) if base == 'G2' else (lambda ks: np.ones(len(ks)))
+    return {'pre': gp(keys['site']), 'betaene': np.array([amp * hval(k, base) for k in keys['site']]),
+            'preT': gp(keys['jump']), 'betaeneT': np.array([amp * hval(k, base) + off for k in keys['jump']])}
 
 
 LETTERS = [('ene', -np.log(2.)), ('ene', np.log(3.)), ('ene', 5.0), ('pre', 2.0), ('pre', 1. / 3.)]
